@@ -34,13 +34,26 @@ def payload(ptype, i):
     if ptype == "tensor":
         import torch
         return torch.arange(6).view(2, 3) + 10 * i
+    if ptype == "bf16":
+        import torch
+        return (torch.arange(6).view(2, 3) + 10 * i).to(torch.bfloat16)
+    if ptype == "ndarray":
+        import numpy as np
+        return np.arange(6, dtype=np.int32).reshape(2, 3) + 10 * i
+    if ptype == "ndtuple":
+        import numpy as np
+        return (np.full((2,), float(i), dtype=np.float64), i)
     raise ValueError(ptype)
 
 
 def eq(a, b):
+    import numpy as np
     import torch
+    if isinstance(a, np.ndarray) or isinstance(b, np.ndarray):
+        return (type(a) is type(b) and a.dtype == b.dtype and a.shape == b.shape and bool(np.array_equal(a, b)))
     if isinstance(a, torch.Tensor) or isinstance(b, torch.Tensor):
-        return isinstance(a, torch.Tensor) and isinstance(b, torch.Tensor) and a.shape == b.shape and torch.equal(a, b)
+        return (isinstance(a, torch.Tensor) and isinstance(b, torch.Tensor) and a.dtype == b.dtype and a.shape == b.shape
+                and torch.equal(a, b))
     if isinstance(a, tuple) and isinstance(b, tuple):
         return len(a) == len(b) and all(eq(x, y) for x, y in zip(a, b))
     return type(a) == type(b) and a == b
@@ -159,16 +172,29 @@ def child_main(conn, pristine, ptype, posttransform=True):
         ds.dataset = base
         return ds, gate
 
-    ds, gate = fresh()
+    class _NoGate:
+        active = False
+
+    def fresh_or_error():
+        # copying the dataset object (what handing it to a reader process does) is the cache's own code
+        # (__getattr__ / __reduce_ex__ lookups): a failure is an observation of every later access, not a harness crash
+        try:
+            return fresh() + (None,)
+        except BaseException as e:  # noqa
+            return None, _NoGate(), "Copy:" + type(e).__name__
+
+    ds, gate, broken = fresh_or_error()
     while True:
         cmd = conn.recv()
         if cmd[0] == "reset":
             gate.active = False
             old = (ds, gate)
-            ds, gate = fresh()
+            ds, gate, broken = fresh_or_error()
             del old        # the objects of the previous schedule go away now (ungated; they hold no reference cycles)
             pristine.shared_dict.clear()
             conn.send(("resetdone",))
+        elif broken is not None and cmd[0] in ("access", "clear", "copydrop"):
+            conn.send(("exc", broken))
         elif cmd[0] == "access":
             calls["n"] = 0
             gate.active = True
@@ -385,6 +411,56 @@ def loader_trace(ptype, wrapped, num_workers):
                 ev=ev)
 
 
+def stacked_trace(ptype, r, length, k=0):
+    """a cache on top of an index-remapping layer on top of another cache (each cache is 'a dataset' for the one
+    above); the outer cache has the post-cache transform.  Events name the UNDERLYING index the access denotes."""
+    from kappadata.caching.shared_dict_dataset import SharedDictDataset
+    n = len(IDX)
+
+    class Plain:
+        def __len__(self):
+            return n
+
+        def __getitem__(self, i):
+            return payload(ptype, int(i))
+
+    class Rev:
+        def __init__(self, ds):
+            self.ds = ds
+
+        def __len__(self):
+            return n
+
+        def __getitem__(self, i):
+            return self.ds[n - 1 - int(i)]
+
+    class RevFwd(Rev):
+        """the same layer in the style of the library's wrappers: unknown attributes are forwarded downwards"""
+
+        def __getattr__(self, item):
+            if item == "ds":
+                raise AttributeError(item)
+            return getattr(self.ds, item)
+
+    ev = []
+    try:
+        inner = SharedDictDataset(Plain())
+        outer = SharedDictDataset((RevFwd if r.random() < 0.6 else Rev)(inner), transform=T)
+        for _ in range(length):
+            if r.random() < 0.1:
+                (outer if r.random() < 0.5 else inner).dispose()
+                continue
+            i = r.choice(IDX)
+            if r.random() < 0.25:
+                inner[i]   # the lower cache is read directly as well (other consumers of the same dataset object)
+                continue
+            val, vi = decode(ptype, outer[i])
+            ev.append(dict(a="plain", p="p1", i=n - 1 - i, val=val, vi=vi))
+    except BaseException as e:  # noqa
+        ev.append(dict(a="exc", p="p1", type=type(e).__name__))
+    return dict(cfg=dict(workload=f"stacked_caches{k}", ptype=ptype, tr=True, nprocs=1, choices=[]), ev=ev)
+
+
 def sequential_history(r, length):
     w = []
     for _ in range(length):
@@ -475,7 +551,8 @@ def run(prop, tier, seed):
     # ---- (R/T) every interleaving on the real class
     traces = []
     workloads = WORKLOADS_QUICK if quick else WORKLOADS_THOROUGH
-    ptypes = ["int", "tensor", "optional"] if quick else ["int", "tuple", "bytes", "tensor", "optional"]
+    ptypes = (["int", "tensor", "optional", "ndarray"] if quick else
+              ["int", "tuple", "bytes", "tensor", "optional", "ndarray", "bf16", "ndtuple"])
     exhaustive = True
     variants = [(pt, True) for pt in ptypes] + [("int", False)]   # (payload type, post-cache transform configured?)
     for pi, (ptype, tr) in enumerate(variants):
@@ -510,6 +587,9 @@ def run(prop, tier, seed):
         for wrapped in ("plain", "subset"):
             for nw in (0, 2):
                 traces.append(loader_trace(ptype, wrapped, nw))
+    for ptype in (["int", "ndarray"] if quick else ["int", "tuple", "ndarray", "tensor"]):
+        for k in range(2 if quick else 6):
+            traces.append(stacked_trace(ptype, r, 60, k))
     for i, t in enumerate(traces, start=1):
         t["id"] = i
     v.coverage["evaluations"] = len(traces)
